@@ -20,7 +20,9 @@ RULE = ("K: per scene (UniformGrid / non-uniform RectilinearGrid, 5..6 cells per
         "battery of closed-surface detectors (time domain and phasor) whose active axes are NOT a prefix of (0,1,2): a 3-D box "
         "with explicit axes (1,), (2,), (0,2), (1,2), a box one cell thin along x and one thin along y; every closed-surface "
         "member (any axes/orientation) is compared with the signed sum of its real face detectors and with an independent numpy "
-        "face sum.")
+        "face sum; plus three PhasorDetector pairs (forward / inverse=True) with a window asymmetric in time (off-centre switch "
+        "interval, off-centre Gaussian apodization, dft_subsample=2 with T=4): accumulating the recorded steps forward and then the "
+        "same steps with the inverse detector must restore the zero state.")
 
 TOL = 1e-9
 COMP = ("Ex", "Ey", "Ez", "Hx", "Hy", "Hz")
@@ -45,7 +47,7 @@ def J():
 
 
 # --------------------------------------------------------------------------------------- scene
-def make_detector(d, name):
+def make_detector(d, name, dt=1.0):
     j = J()
     fdtdx, jnp = j["fdtdx"], j["jnp"]
     k, o = d["kind"], d["opts"]
@@ -63,8 +65,16 @@ def make_detector(d, name):
                                                        axes=None if o["axes"] is None else tuple(o["axes"]), **common)
     wcs = tuple(fdtdx.WaveCharacter(wavelength=w) for w in o.get("wavelengths", []))
     if k == "phasor":
+        extra = {}
+        win = o.get("window")
+        if win == "switch":        # off-centre on-interval
+            extra["switch"] = fdtdx.OnOffSwitch(fixed_on_time_steps=[0, 1])
+        elif win == "apod":        # off-centre apodization
+            extra["apodization"] = fdtdx.GaussianWindow(center_time=0.5 * dt, sigma_time=1.2 * dt)
+        elif win == "stride":      # kept steps 0,2 of T=4: (T-1) % 2 != 0
+            extra["dft_subsample"] = 2
         return fdtdx.PhasorDetector(name=name, dtype=jnp.complex128, wave_characters=wcs, reduce_volume=o["reduce"],
-                                    components=tuple(o["components"]), inverse=o["inverse"], scaling_mode=o["scaling"])
+                                    components=tuple(o["components"]), inverse=o["inverse"], scaling_mode=o["scaling"], **extra)
     if k == "pflux":
         return fdtdx.PhasorPoyntingFluxDetector(name=name, dtype=jnp.complex128, wave_characters=wcs, direction=o["direction"],
                                                 fixed_propagation_axis=o["fixed_axis"], keep_all_components=o["keep_all"],
@@ -98,14 +108,14 @@ def build(spec):
     if spec["grid"] == "direct":
         key = j["jax"].random.PRNGKey(0)
         for g, m, d in flat:
-            obj = make_detector(d, f"g{g}m{m}")
+            obj = make_detector(d, f"g{g}m{m}", float(dt))
             out[(g, m)] = obj.place_on_grid(tuple(tuple(x) for x in d["box"]), cfg, key)
         return out, float(cfg.time_step_duration), int(cfg.time_steps_total)
     vol = fdtdx.SimulationVolume(partial_grid_shape=tuple(spec["shape"]))
     objs, cons = [vol], []
     for g, m, d in flat:
         name = f"g{g}m{m}"
-        obj = make_detector(d, name)
+        obj = make_detector(d, name, float(dt))
         lo = [b[0] for b in d["box"]]
         hi = [b[1] for b in d["box"]]
         if spec["grid"] == "nonuniform":
@@ -175,6 +185,20 @@ def run_group(spec, g, dets, dt, T):
     box = grp["box"]
     n = [b[1] - b[0] for b in box]
     out = []
+    if grp["kind"] == "pwin":
+        fwd, inv = dets[(g, 0)], dets[(g, 1)]
+        on = [t for t in range(T) if bool(fwd._is_on_at_time_step_arr[t])]
+        on_inv = [t for t in range(T) if bool(inv._is_on_at_time_step_arr[t])]
+        state = fwd.init_state()
+        for t in on:
+            E, H, ie, im = inputs(grp, t)
+            state = fwd.update(jnp.asarray(t, dtype=jnp.int32), jnp.asarray(E), jnp.asarray(H), state, jnp.asarray(ie), im)
+        mid = np.asarray(state["phasor"])
+        for t in reversed(on):
+            E, H, ie, im = inputs(grp, t)
+            state = inv.update(jnp.asarray(t, dtype=jnp.int32), jnp.asarray(E), jnp.asarray(H), state, jnp.asarray(ie), im)
+        return [{"steps": [], "kind": "phasor", "final": {"phasor": mid}, "on": on},
+                {"steps": [], "kind": "phasor", "final": {"phasor": np.asarray(state["phasor"])}, "on": on_inv}]
     for m, d in enumerate(grp["members"]):
         det = dets[(g, m)]
         o = d["opts"]
@@ -394,6 +418,17 @@ def group_identities(spec, g, recs, dets):
             return f"reduced PhasorDetector {Rf.ravel()[:3]} != volume-weighted mean of the spatial phasors {want.ravel()[:3]}"
         if not close(Si, -Sf) or not close(Ri, -Rf):
             return "inverse-time PhasorDetector does not subtract what the forward one adds"
+    elif kind == "pwin":
+        mid, end = recs[0]["final"]["phasor"], recs[1]["final"]["phasor"]
+        w = mem[0]["opts"]["window"]
+        if recs[0]["on"] != recs[1]["on"]:
+            return f"window={w}: forward detector records steps {recs[0]['on']}, the inverse-time one {recs[1]['on']}"
+        amp = float(np.max(np.abs(mid)))
+        if not amp > 1e-6:
+            return f"window={w}: forward accumulation over steps {recs[0]['on']} left the state at zero"
+        if float(np.max(np.abs(end))) > 1e-12 * amp:
+            return (f"window={w}: accumulating steps {recs[0]['on']} forward and then the same steps with inverse=True does not restore "
+                    f"the initial state: residual {float(np.max(np.abs(end))):.3e} of {amp:.3e}")
     elif kind == "cphasor":
         P = recs[2]["final"]["phasor"][0]               # (nf, 6, *n) spatial phasors of the same region
         o = mem[0]["opts"]
@@ -527,6 +562,10 @@ def gen_group(rng, kind, shape, T, fixed=None):
                         {"kind": "phasor", "opts": dict(base, reduce=True, components=sub, inverse=False)},
                         {"kind": "phasor", "opts": dict(base, reduce=False, components=list(COMP), inverse=True)},
                         {"kind": "phasor", "opts": dict(base, reduce=True, components=sub, inverse=True)}]
+    elif kind == "pwin":
+        g["box"] = rand_box(rng, shape)
+        base = {"wavelengths": wl[:1], "scaling": scaling, "reduce": rng.chance(0.3), "components": list(COMP), "window": fixed["window"]}
+        g["members"] = [{"kind": "phasor", "opts": dict(base, inverse=False)}, {"kind": "phasor", "opts": dict(base, inverse=True)}]
     for m in g["members"]:
         m.setdefault("box", g["box"])
     return g
@@ -544,6 +583,8 @@ def gen_scene(rng, grid, per_kind, kinds=KINDS):
               if not (battery and per_kind == 1 and k in ("closed", "cphasor"))]
     if battery:
         groups += battery_groups(rng, shape, T)
+        # inverse-time phasor detectors with a window that is asymmetric under t -> T-1-t (all three kinds)
+        groups += [gen_group(rng, "pwin", shape, T, fixed={"window": w}) for w in ("switch", "apod", "stride")]
     return {"shape": shape, "grid": grid, "widths": widths, "T": T, "groups": groups}
 
 
@@ -581,6 +622,8 @@ def eval_scene(ctx, spec, with_model=True):
         d = group_identities(spec, g, recs, dets)
         if d:
             fails.append((g, d))
+        if with_model and grp["kind"] == "pwin":
+            ctx.case(nontrivial=("pwin", spec["grid"], g), op="phasor-forward-then-inverse", window=grp["members"][0]["opts"]["window"])
         if with_model:
             for line, got, lab in model_requests(spec, g, recs, dt, T):
                 lines.append(line)
